@@ -73,17 +73,17 @@ theorem who_calls {P : Prog} {c0 c c' : Cfg} (h0 : Started c0) (hr : Reach P c0 
     | .prompt => ∃ rest, c.code = .getInput scr arg :: rest ∧ key = none
     | .input => ∃ k rest, c.code = .processInput scr k :: rest ∧ arg = (c.A.scr scr).inputArgs ∧ key = some k
     | .closed => ∃ frm e rest, c.code = .closeScreen frm :: rest ∧ c.A.stack.getLast? = some e ∧
-        scr = e.screen ∧ arg = none ∧ key = none := by
+        (frm = none ∨ frm = some (.scr e.screen)) ∧ scr = e.screen ∧ arg = none ∧ key = none := by
   rcases hc : c.code with _ | ⟨ins, rest⟩
   · rw [h.eq, step_nil P c hc, hc] at hh; simp at hh
   · rw [h.eq] at hh
     have := head_imm_after (hr.imm h0) hc hh rfl
     simp only [ImmPushedBy, reduceCtorEq, and_false, exists_false, false_or, or_false, exists_const,
       Instr.callScr.injEq, false_and] at this
-    rcases this with ⟨frm, e, rfl, he, rfl, rfl, rfl, rfl⟩ | ⟨top, rfl, ht, hrd, rfl, rfl, rfl, rfl⟩ |
+    rcases this with ⟨frm, e, rfl, he, hacc, rfl, rfl, rfl, rfl⟩ | ⟨top, rfl, ht, hrd, rfl, rfl, rfl, rfl⟩ |
       ⟨top, rfl, rfl, rfl, rfl, rfl⟩ | ⟨top, rfl, rfl, rfl, rfl, rfl⟩ | ⟨s, a, rfl, rfl, rfl, rfl, rfl⟩ |
       ⟨s, k, rfl, rfl, rfl, rfl, rfl⟩
-    · exact ⟨frm, e, rest, rfl, he, rfl, rfl, rfl⟩
+    · exact ⟨frm, e, rest, rfl, he, hacc, rfl, rfl, rfl⟩
     · exact ⟨top, rest, rfl, ht, hrd, rfl, rfl, rfl⟩
     · exact ⟨top, rest, rfl, rfl, rfl, rfl⟩
     · exact ⟨top, rest, rfl, rfl, rfl, rfl⟩
@@ -142,12 +142,26 @@ theorem refresh_step_eq (P : Prog) (c : Cfg) (top : Entry) (rest : List Instr) (
   exact ⟨_, rfl, rfl, rfl, rfl, rfl⟩
 
 theorem close_step_eq (P : Prog) (c : Cfg) (frm : Option Src) (e : Entry) (rest : List Instr)
-    (hc : c.code = .closeScreen frm :: rest) (he : c.A.stack.getLast? = some e) :
+    (hc : c.code = .closeScreen frm :: rest) (he : c.A.stack.getLast? = some e)
+    (hacc : frm = none ∨ frm = some (.scr e.screen)) :
     ∃ c', step P c = .ok c' ∧
       c'.code = .callScr e.screen .closed none none :: .closeScreen2 e frm :: rest ∧
       c'.A.stack = c.A.stack.dropLast ∧ c'.tr = .stackOp "close" c.A.stack.dropLast :: c.tr ∧ c'.log = c.log := by
-  simp only [step, hc, he]
+  have hrf : ¬ (frm ≠ none ∧ frm ≠ some (.scr e.screen)) := by
+    rintro ⟨h1, h2⟩
+    rcases hacc with h | h
+    · exact h1 h
+    · exact h2 h
+  simp only [step, hc, he, hrf, if_false]
   exact ⟨_, rfl, rfl, rfl, rfl, rfl⟩
+
+/-- a close requested on behalf of anything but the screen on top is refused before anything is popped -/
+theorem close_step_refused (P : Prog) (c : Cfg) (frm : Option Src) (e : Entry) (rest : List Instr)
+    (hc : c.code = .closeScreen frm :: rest) (he : c.A.stack.getLast? = some e)
+    (hrf : frm ≠ none ∧ frm ≠ some (.scr e.screen)) :
+    step P c = ({ c with code := rest } : Cfg).raise .err := by
+  simp only [step, hc, he]
+  rw [if_pos hrf]
 
 /-- the result of `setup` is tested right after it returns, for the entry that was set up -/
 theorem setup_result_tested {P : Prog} {c0 c : Cfg} (h0 : Started c0) (hr : Reach P c0 c) {scr : Nat} {ret : Ret}
